@@ -264,6 +264,9 @@ class _FilesystemDataSource(DataSource):
         dir_path = self._get_non_versioned_path(directory)
         if not dir_path.is_dir():
             return []
+        if limit is not None and limit <= 0:
+            # The walks below count an entry before they compare with the limit
+            return []
         escaped_key = self._escape_key(directory.key)
         dir_prefix = (
             (escaped_key + "/") if escaped_key and not escaped_key.endswith("/") else ""
